@@ -428,7 +428,8 @@ class Message:
             size = 2 ** (size_exp + 4)
             start = number * size
 
-        if start >= len(self.payload):
+        if start >= len(self.payload) and number != 0:
+            # (Block 0 of an empty body is the body's only, final block)
             raise error.BadRequest("Block request out of bounds")
 
         end = start + size if start + size < len(self.payload) else len(self.payload)
